@@ -522,6 +522,10 @@ func (e *Engine) addNatives() {
 		}
 		return nil
 	}
+	for name, f := range map[string]func(float64) float64{"math.Trunc": math.Trunc, "math.Abs": math.Abs, "math.Floor": math.Floor, "math.Ceil": math.Ceil} {
+		f := f
+		in[name] = func(c *callCtx) Value { return f(c.floatArg(0)) }
+	}
 	in["math.IsNaN"] = func(c *callCtx) Value {
 		switch x := c.args[0].(type) {
 		case float64:
@@ -577,7 +581,30 @@ func (e *Engine) addNatives() {
 		id := c.s.allocMem(b)
 		return Slice{ID: id, Len: int32(len(b)), Cap: int32(len(b))}
 	}
-	in["encoding/json.Marshal"] = func(c *callCtx) Value { return c.s.jsonMarshal(c.w, c.args[0].(Iface)) }
+	in["encoding/json.Marshal"] = func(c *callCtx) Value {
+		iv := c.args[0].(Iface)
+		if iv.T != nil {
+			if m := c.s.eng.jsonMarshalerMethod(iv.T); m != nil {
+				// a json.Marshaler: call its (interpreted) MarshalJSON; on error wrap it as encoding/json does;
+				// returned bytes are taken as they are (assumed valid compact JSON)
+				tname := iv.T.Str
+				nf := c.s.newFrame(m, []Value{iv.V}, nil, c.dest)
+				nf.callSite = c.site
+				nf.post = func(s *State, rv Value) Value {
+					tu := rv.(Tuple)
+					if ev, ok := tu[1].(Iface); ok && ev.T != nil {
+						msg := strConcat("json: error calling MarshalJSON for type "+tname+": ", s.errorText(ev))
+						return Tuple{Slice{}, s.newError(msg)}
+					}
+					return tu
+				}
+				c.t.frames = append(c.t.frames, nf)
+				c.tail = true
+				return nil
+			}
+		}
+		return c.s.jsonMarshal(c.w, iv)
+	}
 }
 
 func (c *callCtx) floatArg(i int) float64 {
